@@ -354,15 +354,20 @@ def main(pid, tier, seed):
             tid += 1
             traces.append({'tid': tid, 'kind': 'tables', 'm': model, 'n': ot.ngram, 'maxlen': ot.max_length,
                            'pws': [omen.ids_of(p, ids) for p in pws], 'alpha': [ids[a] for a in ot.alphabet],
-                           'ipc': ipc, 'epc': epc, 'cpc': cpc, 'lnc': [c for _, c in ot.ln_lookup]})
+                           'ipc': ipc, 'epc': epc, 'cpc': cpc, 'lnc': [c for _, c in ot.ln_lookup], 'asz': asz})
             meta[tid] = {'kind': 'trainer n-gram tables', 'list': name, 'ngram': ngram, 'alphabet_size': asz, 'passwords': len(pws)}
 
     verdicts, st = core.validate_traces('TrOmen.tla', traces, chunk=250, timeout=900)
+    idrift = []
     for t in traces:
         v = verdicts[t['tid']]
         if v[0] != 'ACCEPT':
             m = meta[t['tid']]
             failing = list(v[1]) if isinstance(v[1], (tuple, list)) else [v[1]]
+            idrift += [{'clauses': [c for c in failing if c.startswith('I_')], 'list': m.get('list')}] if any(c.startswith('I_') for c in failing) else []
+            failing = [c for c in failing if not c.startswith('I_')]       # I_ clauses: conformance with the I-layer, never a verdict
+            if not failing:
+                continue
             verdict.violation(dict(m, clause='+'.join(failing), failing=failing),
                               'clauses %s; %s' % (failing, core.short({k: m[k] for k in m if k not in ('model',)}, 300)))
     verdict.matcher('C10-F8-all-level-10', lambda w: w.get('boundary') in ('ln10', 'ip10') and w.get('failing') == ['C10_generator_raised'])
@@ -403,7 +408,7 @@ def main(pid, tier, seed):
                    'C18: one trace = keyspace rows of one model / trained ruleset; C11: one trace = one trained ruleset with all candidate strings',
            'models_in_checked_space': n_models_total,
            'trace_validation': st, 'exhaustive': False, 'known_findings_reproduced': n_known,
-           'impl_conformance': conf,
+           'impl_conformance': conf, 'alphabet_and_other_I_clauses': {'result': 'drift' if idrift else 'conforms', 'examples': idrift[:3]},
            'binding_selftest': selftest,
            'violation_histogram': verdict.histogram()}
     core.write_evidence(pid, tier, seed, 'model_checking', cov, time.time() - t0, violations=n_viol,
